@@ -283,6 +283,25 @@ func checkMain(repo, verif string, args []string) int {
 			}
 		}
 	}
+	if *prop == "C18" {
+		// "Pow equals PowWithMode under DefaultRoundingMode": the pass-through obligations of Pow need the
+		// mode-independence part of the frame analysis (no *WithMode method reads DefaultRoundingMode)
+		ff, _, ferr := frameCheck(w)
+		if ferr != nil {
+			genErrors = append(genErrors, "frame analysis: "+ferr.Error())
+		}
+		for _, f := range ff {
+			if strings.Contains(f.What, "reads DefaultRoundingMode") {
+				frameFindings = append(frameFindings, f)
+			}
+		}
+		nObl++
+		if len(frameFindings) == 0 {
+			nDis++
+		}
+		byKind["mode-independence"]++
+		bySolver["syntactic"]++
+	}
 	if *prop == "C20" {
 		bad := map[string]bool{}
 		for _, f := range frameFindings {
